@@ -828,6 +828,13 @@ pub fn c10(r: &mut Rng, tier: &str) -> Vec<Case> {
                     let pc = s.pc;
                     s.poke(pc.wrapping_add(2), &[d]);
                 }
+                if k % 6 == 5 {
+                    // "every machine state" includes an accepted request: the same request in both twins
+                    s.iff1 = true;
+                    // (modes 0 and 1: in mode 2 the first handler instruction is arbitrary code that may read the prefix byte)
+                    s.im = ((k / 6) % 2) as u8;
+                    s.int = Some(r.pick(&[0xDDu8, 0xFD, 0xCB, 0xED, 0xC7, 0xFF, 0x00]));
+                }
                 // the two forms differ in the prefix byte itself: keep data accesses away from it
                 {
                     let pc = s.pc;
@@ -1089,8 +1096,8 @@ pub fn c14(r: &mut Rng, tier: &str) -> Vec<Case> {
     // executing a HALT, idling, then every kind of request, then returning
     for iff1 in [false, true] {
         for im in 0..3u8 {
-            for req in 0..4u8 {
-                // 0 none, 1 NMI, 2 INT(rst), 3 INT(any)
+            for req in 0..5u8 {
+                // 0 none, 1 NMI, 2 INT(rst), 3 INT(any), 4 INT(non-RST byte, meaningful in mode 0)
                 for idle in [0usize, 1, 2, 17] {
                     for k in 0..n {
                         let mut s = rand_state(r);
@@ -1119,7 +1126,11 @@ pub fn c14(r: &mut Rng, tier: &str) -> Vec<Case> {
                         for _ in 0..idle {
                             c.push(Cmd::X, p_ctl());
                         }
+                        let after = if req == 4 { Proj { ctl: true, ..NONE } } else { p_ctl() };
                         match req {
+                            4 => {
+                                c.push(Cmd::I(r.pick(&[0x00u8, 0x04, 0x3C, 0x47])), P_NONE);
+                            }
                             1 => {
                                 c.push(Cmd::N, P_NONE);
                             }
@@ -1133,10 +1144,15 @@ pub fn c14(r: &mut Rng, tier: &str) -> Vec<Case> {
                             }
                             _ => {}
                         }
-                        for _ in 0..4 {
-                            c.push(Cmd::X, p_ctl());
+                        // one step decides whether the halt ended; the steps after that only for the
+                        // requests whose handler is specified
+                        c.push(Cmd::X, after);
+                        if req != 4 {
+                            for _ in 0..3 {
+                                c.push(Cmd::X, p_ctl());
+                            }
+                            c.push(Cmd::D, p_mem());
                         }
-                        c.push(Cmd::D, p_mem());
                         cases.push(c);
                     }
                 }
@@ -1214,6 +1230,11 @@ pub fn c15(r: &mut Rng, tier: &str) -> Vec<Case> {
                 if k % 4 == 2 {
                     alias_pc(r, &mut s, page, op);
                 }
+                if k % 4 == 1 {
+                    // a request that will not be accepted is pending: the listing and the step still agree
+                    s.iff1 = false;
+                    s.int = Some(if k % 8 == 1 { r.pick(&RST_OPS) } else { r.u8() });
+                }
                 let pc = s.pc;
                 let mut c = Case::new(format!("{}/pc{}a{}", tagof(page, op), cls16(pc), (k % 4 == 2) as u8));
                 c.key = tagof(page, op);
@@ -1243,6 +1264,9 @@ pub fn c16(r: &mut Rng, tier: &str) -> Vec<Case> {
                 }
                 let code = encode(page, op, ob[k % 6], ob[(k / 6) % 6], v8(r));
                 s = with_code(s, &code);
+                if k % 5 == 3 {
+                    s = with_ctl(r, s);
+                }
                 let pc = s.pc;
                 let mut c = Case::new(format!("{}/o{}pc{}", tagof(page, op), k % 6, cls16(pc)));
                 c.key = tagof(page, op);
@@ -1337,6 +1361,11 @@ pub fn c18(r: &mut Rng, tier: &str) -> Vec<Case> {
         s.smax = budgets[k % 6];
         s.sdur = [1u32, 16, 20, 1000][k % 4];
         s.scur = if k % 3 == 0 { 0 } else { r.below(s.smax as u64 + 300) as u32 };
+        if k % 4 == 1 {
+            // a program that soon halts (DI; HALT or EI; HALT): the idle steps count 4 T-states each
+            let pc = s.pc;
+            s.poke(pc, &[if k % 8 == 1 { 0xF3 } else { 0xFB }, 0x00, 0x76]);
+        }
         let mut c = Case::new(format!("timed/b{}d{}", s.smax, s.sdur));
         c.key = "timed".into();
         // sleep presence / bound / counter are judged on the implementation's own T-states (accounting
@@ -1373,14 +1402,14 @@ pub fn c18(r: &mut Rng, tier: &str) -> Vec<Case> {
 // C19
 // ---------------------------------------------------------------------------------------------
 pub fn c19(r: &mut Rng, tier: &str) -> Vec<Case> {
-    let n = if quick(tier) { 500 } else { 12000 };
+    let n = if quick(tier) { 500 } else { 4000 };
     let mut cases = vec![];
     let pj = Proj { r: false, dbg: 0, cyc: false, ..FULL };
     for (rop, sop, cmp) in [(0xB0u8, 0xA0u8, false), (0xB8, 0xA8, false), (0xB1, 0xA1, true), (0xB9, 0xA9, true)] {
         for k in 0..n {
             let mut s = rand_state(r);
             s.seed = SEEDS[k % 6];
-            let big = if quick(tier) { k % 120 == 1 } else { k % 6 == 1 };
+            let big = if quick(tier) { k % 120 == 1 } else { k % 240 == 1 };
             let bc: u16 = match k % 6 {
                 0 => 1 + (k as u16 / 6) % 300,
                 1 if big => r.pick(&[0x7FFFu16, 0x8000, 0x8001, 0xFFFF]),
@@ -1489,6 +1518,45 @@ pub fn c20(r: &mut Rng, tier: &str) -> Vec<Case> {
             c.push(Cmd::D, p_mem());
             cases.push(c);
         }
+    }
+    // histories on one bus: what an earlier load / write / clear did must not change what a later one does
+    let nh = if quick(tier) { 200 } else { 4000 };
+    for k in 0..nh {
+        let top: u16 = if k % 4 == 0 { 0x3FF } else { 0x3F };
+        let mut s = St::default();
+        s.top = top;
+        s.seed = SEEDS[k % 6];
+        let mut c = Case::new(format!("history/t{}", cls16(top)));
+        c.key = "history".into();
+        c.push(sbox(s), P_NONE);
+        let t = top as usize;
+        for _ in 0..14 {
+            match r.below(5) {
+                0 => {
+                    c.push(Cmd::WB((r.u16() as usize % (t + 1)) as u16, r.u8() | 1), P_NONE);
+                }
+                1 => {
+                    let org = r.u16() as usize % (t + 1);
+                    let len = r.below((t + 1 - org) as u64 + 1) as usize;
+                    c.push(Cmd::LB(org as u16, Some(len), 0x100 + r.below(50) as u32), p_mem());
+                }
+                2 => {
+                    let a = r.u16() as usize % (t + 1);
+                    let b = a + r.below((t + 1 - a) as u64) as usize;
+                    c.push(Cmd::CL(a, b), p_mem());
+                }
+                3 => {
+                    let a = r.u16() as usize % (t + 1);
+                    let b = a + r.below((t + 1 - a) as u64) as usize;
+                    c.push(Cmd::SL(a, b.min(a + 40)), p_mem());
+                }
+                _ => {
+                    c.push(Cmd::WW((r.u16() as usize % (t + 1)) as u16, r.u16()), P_NONE);
+                }
+            }
+            c.push(Cmd::D, p_mem());
+        }
+        cases.push(c);
     }
     // large buses: boundary pairs, the largest file that fits, a missing path
     for top in [0xFFFFu16, 0x7FFF, 0xFFFE, 0x0100] {
